@@ -1,4 +1,5 @@
 import PhpVerif.Lemmas.LinearRun
+import PhpVerif.Model.Mentions
 import PhpVerif.Gen.Terms7
 import PhpVerif.Gen.Terms5
 import PhpVerif.Gen.Grammar7
@@ -108,66 +109,6 @@ right-hand side and no action returns a stale value, possibly a node that is als
 (The driver model returns Go's zero value there: the one place where it deliberately differs from the Go text;
 `diff-parser` cannot see the difference as long as nobody reads the value.)  The obligation: the value of such a
 production is never read by any action. -/
-
-mutual
-def tmMentions (i : Nat) : Tm → Bool
-  | .argAt _ j => i == j
-  | .arg j => i == j
-  | .cur => false
-  | .nil => false
-  | .fld t _ => tmMentions i t
-  | .obj _ => false
-  | .list xs => mentionsL i xs
-  | .app b xs => tmMentions i b || mentionsL i xs
-  | .cat a b => tmMentions i a || tmMentions i b
-  | .idx0 t => tmMentions i t
-  | .last t => tmMentions i t
-  | .tail t => tmMentions i t
-  | .init t => tmMentions i t
-  | .bytes _ t => tmMentions i t
-  | .pos _ args => mentionsL i args
-  | .chain acc l _ => tmMentions i acc || tmMentions i l
-  | .nest l inner _ => tmMentions i l || tmMentions i inner
-def mentionsL (i : Nat) : List Tm → Bool
-  | [] => false
-  | t :: ts => tmMentions i t || mentionsL i ts
-end
-
-def condMentions (i : Nat) : Cond → Bool
-  | .isNil t => tmMentions i t
-  | .lenEq t _ => tmMentions i t
-  | .kindIs t _ => tmMentions i t
-  | .atoi t => tmMentions i t
-  | .intOff t _ => tmMentions i t
-  | .not c => condMentions i c
-  | .and a b => condMentions i a || condMentions i b
-  | .or a b => condMentions i a || condMentions i b
-
-/-- the path reads or writes `$i` -/
-def pathMentions (p : TPath) (i : Nat) : Bool :=
-  p.conds.any (condMentions i) || p.objs.any (fun o => mentionsL i o.fields) ||
-  p.muts.any (fun m => m.arg == i || tmMentions i m.val) ||
-  (match p.ret with | some t => tmMentions i t | none => false) ||
-  (match p.root with | some t => tmMentions i t | none => false)
-
-/-- left-hand sides of productions with an empty right-hand side and no action -/
-def staleSyms (prods : List (Nat × List Nat)) (ps : List TPath) : List Nat :=
-  ((List.range prods.length).filter (fun k => ((prods[k]?).map (·.2)).getD [0] == [] && !ps.any (fun p => p.prod == k + 1))).map
-    (fun k => ((prods[k]?).map (·.1)).getD 0)
-
-/-- (production, path) of every action path that reads the value of symbol `s`; a production without any
-    action whose *first* right-hand-side symbol is `s` (`$$ = $1` by default) counts as well -/
-def readsSym (prods : List (Nat × List Nat)) (ps : List TPath) (s : Nat) : List (Nat × Nat) :=
-  (ps.filter (fun p =>
-    let rhs := ((prods[p.prod - 1]?).map (·.2)).getD []
-    (List.range rhs.length).any (fun j => (rhs[j]?).getD 0 == s && pathMentions p (j + 1)))).map (fun p => (p.prod, p.path)) ++
-  ((List.range prods.length).filter (fun k =>
-    (match ((prods[k]?).map (·.2)).getD [] with
-      | s' :: _ => s' == s
-      | [] => false) && !ps.any (fun p => p.prod == k + 1))).map (fun k => (k + 1, 0))
-
-def staleReads (prods : List (Nat × List Nat)) (ps : List TPath) : List (Nat × Nat) :=
-  (staleSyms prods ps).flatMap (readsSym prods ps)
 
 /-- OBLIGATION: no action reads the value of an `error` symbol (symbol 1 of the regenerated grammar), and no
     production without an action starts with one.  goyacc pushes the error token with the value `yyVAL` of the
